@@ -242,6 +242,7 @@ pub fn replay_text_case(case: &serde_json::Value) -> i32 {
             "PD" => Pipe::PD,
             "WD" => Pipe::WD,
             "DF" => Pipe::DF,
+            "DFDF" => Pipe::DFDF,
             _ => Pipe::PDF,
         };
         println!("text: {text:?}  pipeline: {pipe:?}");
